@@ -516,6 +516,11 @@ FRONT_SOUP = [
     "myst:\n  heading_slug_func: os.path.basename", "myst:\n  heading_slug_func: nosuch.mod", "myst:\n  suppress_warnings: ['myst.header']", "myst:\n  sub_delimiters: ['[', ']']", "myst:\n  sub_delimiters: 'ab'",
     "myst:\n  number_code_blocks: [python]", "myst:\n  footnote_sort: false", "myst:\n  all_links_external: true", "myst:\n  commonmark_only: true", "myst:\n  disable_syntax: [emphasis, nosuchrule]", "myst:\n  html_meta: 1",
     "myst:\n  inventories:\n    k: ['https://e', null]", "myst:\n  words_per_minute: 0", "\x00: 1", "k: \"\\ud800\"", "myst:\n  enable_extensions: [nosuch]", "myst:\n  dmath_allow_labels: 'x'",
+    # keys / shapes a JSON encoder cannot take; self-referencing aliases; keys that are not strings at the top level
+    "a: {2020-01-01: x}", "a: {1.5: x, ~: y, true: z}", "a: &a [*a]", "a: &a {b: *a}", "a: [&b {c: *b}]", "a: {!!binary aGk=: v}", "a: {? [1, 2] : v}", "2020-01-01: top", "1: one\n2.5: f\n~: n\ntrue: b", "? !!binary aGk=\n: v",
+    "title: &t [*t]", "author: {2020-01-01: x}", "a: !!float 'x'", "a: !!int 'x'", "a: !!bool 'x'", "a: !!null 'x'", "a: !!python/tuple [1]", "a: !!seq {x: 1}", "a: !!map [x]", "a: !!str {x: 1}", "a: 1e999", "a: -.inf", "a: 0x",
+    "a: 2020-13-45", "a: 99:99:99", "a: 1_000", "a: 0b2", "a: '\\x'", "a: \"\\xZZ\"", "a: \"\\u12\"", "%YAML 9.9\n---\na: 1", "%TAG ! tag:x,2000:\n---\na: !foo 1", "a: |+\n\n\n", "a: >-\n  \n", "? |\n  block key\n: v", "a:\n- b\n-\n- c",
+    "myst:\n  substitutions:\n    2020-01-01: d\n    1: one", "myst:\n  substitutions: &s\n    k: *s", "myst:\n  html_meta:\n    1: x", "myst:\n  url_schemes:\n    1: x", "myst:\n  url_schemes: &u\n    x: *u", "myst: &m\n  substitutions: *m",
 ]
 
 
